@@ -26,17 +26,18 @@ ASSUMPTIONS = ["instances created before a clear() are don't-care afterwards (ne
 ANCHORS = ["update_cache", "SymbolGraph.add_node", "SymbolGraph.remove_node", "SymbolGraph.remove_dead_instances",
            "SymbolGraph.get_instances_of_type", "Symbol.__new__"]
 
-OPS = ["create", "create", "create", "clone", "drop", "drop", "gc", "relate", "q_new", "q_new", "q_build", "q_build_attr", "q_eval", "q_eval",
+OPS = ["create", "create", "create", "clone", "q_during", "drop", "drop", "gc", "relate", "q_new", "q_new", "q_build", "q_build_attr", "q_eval", "q_eval",
        "clear", "forget", "forget", "q_rule", "q_rule_eval", "q_rule_eval", "q_pair"]
 
 
 def plan(tier):
-    return {"cases": 2400 if tier == "quick" else 50000, "shards": 16, "case_timeout": 60, "shard_timeout": 3000,
+    return {"cases": 3000 if tier == "quick" else 50000, "shards": 16, "case_timeout": 60, "shard_timeout": 3000,
             "min_nontrivial": 100,
             "min_counters": {"queries_checked": 5000, "instances_reclaimed": 1000,
                              "clears": 100, "reevaluations": 500, "bulk_dropped": 2000, "rule_pairs_compared": 300,
                              "rule_pairs_with_answers": 100, "pair_queries_checked": 300, "stored_queries_with_the_variable_behind_a_nested_query": 100,
-                             "clones": 300 if tier == "quick" else 5000}}
+                             "clones": 300 if tier == "quick" else 5000,
+                             "queries_with_instances_created_meanwhile": 300 if tier == "quick" else 5000}}
 
 
 def setup(ctx):
@@ -65,6 +66,12 @@ def gen(rng, tier, ctx):
         elif op in ("q_new", "q_build", "q_build_attr"):
             steps.append([op, rng.choice(["Person", "Employee", "Manager", "Org", "Dept", "Chief", "Volunteer", "WorkingStudent", "VOrg", "VPerson",
                                           "SeasonalA", "Row", "Row", "Lenient", "Visitor"])])
+        elif op == "q_during":
+            # instances created while the query is being evaluated: of the queried class and of its subclasses, in any order
+            t = rng.choice(["Person", "Person", "Org", "Employee", "Visitor"])
+            below = {"Person": ["Person", "Employee", "Manager", "Volunteer"], "Org": ["Org", "Dept"], "Employee": ["Employee", "Manager"],
+                     "Visitor": ["Visitor", "Delegate", "Convener"]}[t]
+            steps.append([op, t, rng.randint(0, 3), [rng.choice(below) for _ in range(rng.randint(1, 4))]])
         elif op == "q_pair":
             t = rng.choice(["Person", "Org", "Employee", "Dept"])
             steps.append([op, t, t if rng.random() < 0.7 else rng.choice(["Person", "Org", "Employee", "Dept", "Volunteer"])])
@@ -98,6 +105,8 @@ def witnesses():
                                                         ["q_new", "Volunteer"]]},
             "late-branch-variable-keeps-first-domain": {"steps": [
         ["create", "Person"], ["create", "Org"], ["q_rule", "Person", "Org"], ["q_rule_eval", 0], ["create", "Org"], ["q_rule_eval", 0]]},
+            "instances-created-meanwhile-seen-by-class-position": {"steps": [
+        ["create", "Org"], ["create", "Dept"], ["q_during", "Org", 1, ["Org", "Dept"]]]},
             "instance-unpickled-with-an-old-protocol-not-registered": {"steps": [
         ["create", "Row"], ["clone", 0, "pickle0"], ["clone", 0, "pickle1"], ["clone", 0, "copy"], ["q_new", "Row"]]},
             "instances-merged-by-an-attribute-called-_id_": {"steps": [
@@ -293,6 +302,51 @@ def run(spec, ctx):
             T = om.ALL_CLASSES[step[1]]
             check_query(an(entity(let(T, None))), step[1], f"fresh query over {step[1]}", False, set())
             shape.append("q" + step[1][0])
+        elif op == "q_during":
+            # "the instances that currently exist": whatever moment of the evaluation "currently" is, it is ONE moment -
+            # the answer is what existed before plus the instances created up to some point of the evaluation (a prefix
+            # of the creation sequence: none of them for a snapshot, all of them for a live view)
+            T = om.ALL_CLASSES[step[1]]
+            gc.collect()
+            before = alive(step[1])
+            it = iter(an(entity(let(T, None))).evaluate())
+            got = []
+            try:
+                for _ in range(step[2]):
+                    got.append(next(it))
+            except StopIteration:
+                pass
+            created = []
+            for cn in step[3]:
+                seq += 1
+                name = f"{cn}{seq}"
+                obj = om.ALL_CLASSES[cn](name)
+                strong[name] = obj
+                census[name] = weakref.ref(obj)
+                created.append(obj)
+            del obj
+            try:
+                got.extend(it)
+            except Exception as e:
+                problems.append(f"query over {step[1]} with instances created meanwhile: {type(e).__name__}: {e}")
+                known = "__unexplained__"
+                continue
+            C["queries_checked"] += 1
+            C["queries_with_instances_created_meanwhile"] += 1
+            got_ids = Counter(id(o) for o in got)
+            required = {id(o) for n, o in before.items() if n not in pre_clear}
+            allowed_before = {id(o) for o in before.values()}
+            new_ids = [id(o) for o in created]
+            seen_new = [i in got_ids for i in new_ids]
+            is_prefix = all(seen_new[:sum(seen_new)])
+            C["meanwhile:" + ("none" if not any(seen_new) else "all" if all(seen_new) else "some")] += 1
+            if any(c > 1 for c in got_ids.values()) or not required <= set(got_ids) or set(got_ids) - allowed_before - set(new_ids) or not is_prefix:
+                problems.append(f"query over {step[1]}, {step[2]} results taken, then {step[3]} created: the answer holds "
+                                f"{len(got)} instances ({len(set(got_ids))} distinct) for {len(before)} existing ones and sees the new ones as {seen_new} "
+                                f"- not what existed at any one moment of the evaluation")
+                known = "__unexplained__"
+            del got, created, it, before
+            shape.append("m" + step[1][0])
         elif op == "q_pair":
             # two domain-less variables in one query (mostly of the same type): each ranges over every live instance
             from krrood.entity_query_language.entity import set_of
